@@ -9,9 +9,11 @@
 //	   A3 every ordered tuple (with repetition) of <= 3 annotations from a colliding pool
 //	   each set rendered in all five formats, each rendering parsed back by the independent parsers of
 //	   refannot.go and compared with the reference model (refSortDedupe + agree).
-//	B  the in-process CLI: build, lint, breaking --against, format --exit-code [-d], each x every
-//	   --error-format (+ config-ignore-yaml for lint), on scratch workspaces with every subset of <= 3
-//	   planted problems, on hostile input directory names, and on operational errors.
+//	B  the in-process CLI: build [-o], lint, breaking --against, format --exit-code [-d] [-w | -o], each x
+//	   every --error-format (+ config-ignore-yaml for lint), on scratch workspaces with every subset of <= 3
+//	   planted problems, x every input shape (directory, .proto file reference, file reference with
+//	   include_package_files=true, directory + --path; naming either file) x workspace layout (one module,
+//	   two modules), on hostile input directory names, and on operational errors.
 package c20
 
 import (
@@ -42,12 +44,18 @@ func run(r *evid.Run) {
 		"A2 all positions {0,1,12}^4 x file kind x type/message/plugin presence; A3 all ordered tuples with repetition of <=3 annotations from a colliding pool) " +
 		"is rendered by PrintFileAnnotationSet in all 5 formats and each rendering is parsed back by an independent parser and compared with the reference list; " +
 		"B: every subset of <=3 planted problems (quick: <=2 plus the triples over one plant per kind) as a scratch workspace x every command x every --error-format through the in-process CLI, " +
+		"where a command is build, build -o, lint, breaking, or format --exit-code in each of its six output modes (stdout, -d, -w, -d -w, -o, -d -o); " +
+		"the same for every other (input shape, layout) of 7 shapes (dir, file-a, file-a+include_package_files, dir --path a, the same three for b) x 2 layouts (one module, two modules) over every subset of <=2 (quick: <=1) planted problems; " +
 		"plus hostile directory names and operational errors. An evaluation is one rendering parsed back (A) or one CLI run (B). " +
-		"Distinct non-trivial = distinct A1 pair with at least one non-'a' fragment, distinct A2 case, distinct A3 tuple of >=2 annotations, distinct (directory name, planted set) workspace, distinct (operational error, workspace).")
+		"Distinct non-trivial = distinct A1 pair with at least one non-'a' fragment, distinct A2 case, distinct A3 tuple of >=2 annotations, distinct (directory name, input shape, layout, planted set) workspace, distinct (operational error, workspace).")
 	r.Assume("text and msvs are line grammars without any escape mechanism: a newline inside a file name or message cannot be expressed, such sets are not compared in these two formats (counted as line_grammar_skipped)")
 	r.Assume("an unknown position (<=0) may be rendered as absent, 0 or 1; github-actions may omit col/endLine/endColumn when the line (resp. end line) is unknown")
 	r.Assume("an empty message or empty rule ID is degenerate ('should never happen' in the printers): placeholders such as FAILURE are accepted")
 	r.Assume("`buf format` on a file with a syntax error prints `Failure: <file>:<line>:<col>: syntax error` and exits 1 whatever --error-format says; the property's list of status-100 situations does not include it, so only 'non-zero' is demanded there")
+	r.Assume("plant model of the input shapes: lint and format judge the files the reference selects, the compiler reads those and what they import, breaking judges what the compiler reads (imports included, buf's default), " +
+		"and a file reference with include_package_files=true reads the package statement of every file of the target's module, so a malformed package/import statement there is a problem in the user's sources (status 100, annotations) although the compiler never sees the file")
+	r.Assume("not run: `buf format` with include_package_files (rejected by buf: listed with the operational errors), `buf breaking` with --path (the in-process CLI cannot change its working directory, the absolute --path is outside the --against input), " +
+		"a reference naming b.proto when the planted set deletes it, and the two-module layout when the planted set empties module modb")
 	r.Assume("the github-actions reference parser is the runner's documented algorithm (first '::' ends the properties, split at ',', unescape %25 %0D %0A and, for properties, %3A %2C)")
 	r.Assume("every CLI run passes --timeout 0: buf's default 2m timeout would make the exit status depend on machine load; a run that is still cut by a deadline is not judged (incomplete, never a violation)")
 	r.Assume("texts are valid UTF-8; control characters other than CR/LF and invalid UTF-8 (which JSON and XML cannot carry losslessly) are out of the enumerated alphabet")
@@ -147,6 +155,11 @@ func run(r *evid.Run) {
 	r.Set("B_config_ignore_yaml_compared", cst.configIgnoreYAML.Load())
 	r.Set("B_config_ignore_yaml_compile_errors", cst.configIgnoreYAMLCompile.Load())
 	r.Set("B_line_grammar_skipped", cst.lineGrammarSkipped.Load())
+	r.Set("B_runs_where_only_the_package_scan_sees_the_planted_problem", cst.viaScanOnly.Load())
+	r.Set("B_format_write_runs_that_rewrote_sources", cst.formatRewrote.Load())
+	r.Set("B_format_output_runs_that_wrote_different_output", cst.formatWroteOutput.Load())
+	r.Set("B_format_output_modes_compared_with_plain", cst.formatModesCompared.Load())
+	r.Set("B_build_o_images_written", cst.buildOutputWritten.Load())
 	r.Set("B_F7_runs", cst.f7.Load())
 	r.Set("B_runs_cut_by_a_deadline_not_judged", cst.timedOut.Load())
 	cst.mu.Lock()
@@ -159,8 +172,13 @@ func run(r *evid.Run) {
 	for _, k := range keys {
 		per[k] = cst.perCmdFormat[k]
 	}
+	perShape := map[string]int{}
+	for k, v := range cst.perShapeLayout {
+		perShape[k] = v
+	}
 	cst.mu.Unlock()
 	r.Set("B_runs_per_command_and_format", per)
+	r.Set("B_workspaces_per_input_shape_and_layout", perShape)
 	if !r.Expired() && only == "" {
 		if cst.exit0.Load() == 0 || cst.exit100.Load() == 0 || cst.exitOther.Load() == 0 {
 			r.Incomplete("vacuous: an exit-status class was never observed")
@@ -168,6 +186,17 @@ func run(r *evid.Run) {
 		if cst.annotationsCompared.Load() == 0 || cst.noFileAnnotations.Load() == 0 || cst.configIgnoreYAML.Load() == 0 ||
 			cst.formatClean.Load() == 0 || cst.formatDiff.Load() == 0 || cst.formatParseError.Load() == 0 {
 			r.Incomplete("vacuous: a CLI clause was never exercised")
+		}
+		if cst.viaScanOnly.Load() == 0 || cst.formatRewrote.Load() == 0 || cst.formatWroteOutput.Load() == 0 ||
+			cst.formatModesCompared.Load() == 0 || cst.buildOutputWritten.Load() == 0 {
+			r.Incomplete("vacuous: no run where only the package scan sees the problem / no format -w run that rewrote / no format -o run with different output / no output mode compared / no build -o image")
+		}
+		for _, layout := range layouts {
+			for _, sh := range shapes {
+				if perShape[sh.ID+"/"+layout] == 0 {
+					r.Incomplete("vacuous: no workspace for input shape " + sh.ID + ", layout " + layout)
+				}
+			}
 		}
 	}
 }
